@@ -44,18 +44,25 @@ func mutateURI(r *rng, u string) string {
 
 func suiteKey(r *rng, n int) {
 	installClock()
-	p := newPipeline(1000000, "300s", true, serverOption(), nil, nil)
-	p.setScript(func(c *elton.Context) error {
+	script := func(c *elton.Context) error {
 		h := c.Header()
 		h["Cache-Control"] = []string{"max-age=600"}
 		c.StatusCode = 200
 		c.BodyBuffer = bytesBuf(c.Request.Method + "|" + c.Request.Host + "|" + c.Request.RequestURI)
 		return nil
-	})
+	}
+	p := newPipeline(1000000, "300s", true, serverOption(), nil, nil)
+	p.setScript(script)
 	// every (method, host, uri) triple is requested in one case only: a mutated URI that happens to equal the URI of
 	// another case would find that case's entry (a legitimate hit, but not what the pair is about)
 	used := map[string]bool{}
 	for i := 0; i < n; i++ {
+		if i == n/2 {
+			// the second half runs on a cache of ONE entry: one shard, every key shares it with every other key, each
+			// new key evicts the one before ("no matter how many keys share a shard, how entries are evicted")
+			p = newPipeline(1, "300s", true, serverOption(), nil, nil)
+			p.setScript(script)
+		}
 		cr := r.fork(uint64(i))
 		m1 := cr.pick([]string{"GET", "GET", "HEAD"})
 		h1 := cr.pick(keyHosts)
@@ -63,7 +70,7 @@ func suiteKey(r *rng, n int) {
 		if cr.chance(10) {
 			u1 = fmt.Sprintf("/k%d", i)
 		}
-		long := cr.chance(4)
+		long := cr.chance(8)
 		if long {
 			// keys longer than any plausible index limit of a store, distinguished only at the very end
 			u1 = fmt.Sprintf("/k%d/%s?id=%d", i, strings.Repeat("segment/", 140), cr.intn(10))
